@@ -58,6 +58,10 @@ var synPaths = []synPath{
 	{"mixed", true, true, true},
 	{"any", true, false, false},
 	{"struct", true, true, false},
+	// the same over a reader that delivers a few bytes per read: the offsets of
+	// errors are absolute, whatever was discarded from the buffer on the way
+	{"token-chunked", true, false, true},
+	{"value-chunked", false, false, true},
 }
 
 // errCtx is the reference verdict on an input together with the grammatical
@@ -285,6 +289,16 @@ func synErrorOf(p synPath, c SynCase) (err error, perr *rt.PanicErr) {
 			}
 		case "value":
 			d := jsontext.NewDecoder(bytes.NewBuffer(append([]byte(nil), in...)))
+			for i := 0; i <= len(in)+2 && err == nil; i++ {
+				_, err = d.ReadValue()
+			}
+		case "token-chunked":
+			d := jsontext.NewDecoder(&chunkReader{b: in, n: 1 + int(cov.FP(in)%9)})
+			for i := 0; i <= 2*len(in)+2 && err == nil; i++ {
+				_, err = d.ReadToken()
+			}
+		case "value-chunked":
+			d := jsontext.NewDecoder(&chunkReader{b: in, n: 1 + int(cov.FP(in)%9)})
 			for i := 0; i <= len(in)+2 && err == nil; i++ {
 				_, err = d.ReadValue()
 			}
